@@ -51,6 +51,8 @@ class SimfileDirectory:
             match = extensions.match(simfile_item, *extensions.SIMFILE)
             if match:
                 simfile_path = self._path.join(simfile_dir, simfile_item)
+                if self.filesystem.isdir(simfile_path):
+                    continue
                 if match == ".sm":
                     if self.sm_path:
                         if self._ignore_duplicate:
@@ -138,7 +140,11 @@ class SimfilePack:
 
             # Check whether this directory has any simfiles in it
             for simfile_item in self.filesystem.listdir(simfile_path):
-                if extensions.match(simfile_item, *extensions.SIMFILE):
+                if extensions.match(
+                    simfile_item, *extensions.SIMFILE
+                ) and not self.filesystem.isdir(
+                    self._path.join(simfile_path, simfile_item)
+                ):
                     yield simfile_path
                     break
 
